@@ -293,3 +293,24 @@ PROPS["C17"] = dict(
         dict(name="histories", run="^TestRegistryHistories$", quick=6000, thorough=300000, shards=16, timeout_thorough=3000),
     ],
 )
+
+PROPS["C18"] = dict(
+    pkg="c18", level="exploration",
+    technique="property-based testing (rapid) of generated mapping tables and paths against an order-exhaustive reference of the replacement policy; 16 evaluations per case to sample Go's map iteration order; native fuzzing for the no-panic clause",
+    claim=("Tables are generated by add/remove histories (home and cwd always present at first; nested, ancestor, sibling and chained mappings; "
+           "tilde, variable, short and long absolute replacements; regexp mappings), both privacy flags are toggled, and generated paths "
+           "(under one/several/no mapping, exactly a prefix, relative, /Volumes, textual look-alikes, arbitrary bytes) are passed to Safety and "
+           "SafetyFiles 16+1 times. Every result must be a member of the set the harness computes by walking the table once in every possible "
+           "order with a leading, component-wise prefix replacement; a protected prefix must never come through; paths outside all mappings "
+           "must come back unchanged or as a shorter equivalent relative path; nothing may panic. The caller.file of records emitted in all "
+           "three formats from a harness call site, under mappings over ancestors of the harness's source directory, must satisfy the same predicate."),
+    note="Not asserted (labelled only): textual look-alike prefixes (/rootkit vs /root) and paths in which a prefix re-occurs inside; when a regexp mapping or the /Volumes rule can interfere only the prefix rule and no-panic are asserted; removal of the home/cwd mapping is only exercised in the caller-field test (cwd). Mappings onto their own prefix are not generated.",
+    rule=("rapid draws 0-6 table operations, the two flags and 1-4 paths. Non-trivial: >= 2 applicable mappings, or an absolute replacement, or a "
+          "remove before the query; distinct = (table history, flags, paths)."),
+    assumptions=["HOME and the working directory of the harness process are the home/cwd the package captured at init"],
+    stages=[
+        dict(name="safety", run="^TestSafety$", quick=15000, thorough=600000, shards=16, timeout_thorough=3000),
+        dict(name="callerfield", run="^TestCallerField$", quick=5000, thorough=200000, shards=16, timeout_thorough=3000),
+        dict(name="fuzz", fuzz="FuzzSafety", fuzztime=120),
+    ],
+)
